@@ -329,6 +329,8 @@ def _isnone(v): return v is None
 def _pos_and_x(r): return bool(r[0] > 0 and r[1] == "x")
 def _b_empty(r): return r[1] == ""
 def _x_and_pos(r): return bool(r[0] == "x" and r[1] > 0)
+def _all_perm(r): return bool(r[0] == "x" and r[2] > 0)
+def _all_hdr(r): return bool(r[0] > 0 and r[1] == "x")
 def _true(r): return True
 def _false(r): return False
 
@@ -339,6 +341,9 @@ PREDS = {
     "callable/col=[one]": (_gt0, ["a"], lambda d: d["a"] > 0),
     "callable/col=[two]": (_pos_and_x, ["a", "b"], lambda d: d["a"] > 0 and d["b"] == "x"),
     "callable/col=[two-permuted]": (_x_and_pos, ["b", "a"], lambda d: d["b"] == "x" and d["a"] > 0),
+    # every column named, in another order than the header / in header order
+    "callable/col=[all-permuted]": (_all_perm, ["b", "c", "a"], lambda d: d["b"] == "x" and d["a"] > 0),
+    "callable/col=[all]": (_all_hdr, ["a", "b", "c"], lambda d: d["a"] > 0 and d["b"] == "x"),
     "callable/col=None": (_b_empty, None, lambda d: d["b"] == ""),
     "callable/missing": (_isnone, "c", lambda d: d["c"] is None),
     "callable/always": (_true, None, lambda d: True),
